@@ -36,3 +36,13 @@ package tchannel
 // (C16 file: a channel that has started closing tracks no new connection -- C07)
 //@ func (ch *Channel) addConnection(c *Connection, direction connectionDirection) (added bool)
 //@   property C07
+
+// (C15 file) "sub-channel calls avoid those peers while untried ones exist" -- C17
+//@ func (l *PeerList) GetNew(prevSelected map[string]struct{}) (peer *Peer, err error)
+//@   property C17
+//@ func (l *PeerList) Get(prevSelected map[string]struct{}) (peer *Peer, err error)
+//@   property C17
+//@ func (l *PeerList) choosePeer(prevSelected map[string]struct{}, avoidHost bool) (p *Peer)
+//@   property C17
+//@ func (c *SubChannel) BeginCall(ctx context.Context, methodName string, callOptions *CallOptions) (call *OutboundCall, err error)
+//@   property C17
